@@ -115,6 +115,7 @@ func Load(o LoadOpts) (*Ctx, error) {
 	var log []string
 	var prev *Ctx
 	unembedded := false
+	canonDone := false
 	for round := 1; ; round++ {
 		c, err := loadOnce(o)
 		if err != nil {
@@ -128,8 +129,26 @@ func Load(o LoadOpts) (*Ctx, error) {
 			return nil, err
 		}
 		c.InlineLog = log
-		if o.NoInline || round > 6 {
+		if o.NoInline || round > 8 {
 			return c, nil
+		}
+		if !canonDone {
+			// other spellings of the library calls the rules know, first (canonapi.go)
+			canonDone = true
+			if add0, l0, err := canonicaliseAPIs(c.Fset, c.AllPkgs, o.Overlay); err == nil && len(add0) > 0 {
+				log = append(log, l0...)
+				c.InlineLog = log
+				ov := map[string][]byte{}
+				for k, v := range o.Overlay {
+					ov[k] = v
+				}
+				for k, v := range add0 {
+					ov[k] = v
+				}
+				o.Overlay = ov
+				prev = c
+				continue
+			}
 		}
 		add, l, err := normaliseNewHelpers(c.Fset, c.AllPkgs, o.Overlay, round)
 		if err != nil {
